@@ -93,5 +93,5 @@ func init() {
 	hprop("C19", histRule+"at tape-chosen points GetLocatorHashes(max) for max in {1,2,3,10,50} is checked for membership (best-chain header or first header of a side branch), newest-first order starting at the tip's parent, no duplicates and the maximum; then for every root-to-leaf path of the reference tree (a conformant peer on that chain) the protocol reply to the locator is computed and its first header submitted: it must connect; non-trivial = every run with at least one locator",
 		25, 900, []string{"locator-at-height<=1", "locator-on-pruned-chain", "locator-with>=2-side-branches", "conformant-peer-reply", "peer-on-sibling-of-tip"}, nil, "exploration",
 		hw.Opts{Groups: groups("c19"), MinSteps: 2, MaxSteps: 50, SmallPrune: true, LargeEvery: 60,
-			WMint: 60, WDeliver: 20, WClean: 5, WSave: 2, WReload: 4, WLocator: 20})
+			WMint: 60, WDeliver: 20, WClean: 5, WSave: 2, WReload: 4, WLocator: 20, WSplit: 25})
 }
